@@ -347,16 +347,16 @@ Scrape(env, streams, cache, nm, dv) ==
       clash(q1, q2) == /\ q1[1] # q2[1] /\ sh[q1[1]].name = sh[q2[1]].name
                        /\ ser(q1).presence # "absent" /\ ser(q2).presence # "absent"
                        /\ ser(q1).labels = ser(q2).labels
-      dupOptFams == {sh[q1[1]].name : q1 \in {q1 \in pts : \E q2 \in pts : clash(q1, q2) /\ ser(q1).opt # ser(q2).opt}}
-      dupHardFams == {sh[q1[1]].name : q1 \in {q1 \in pts : \E q2 \in pts : clash(q1, q2) /\ ser(q1).opt = ser(q2).opt}}
-      helpFams == {sh[i].name : i \in {i \in 1..Len(sh) : \E j \in 1..Len(sh) : sh[i].name = sh[j].name /\ sh[i].eh # sh[j].eh}}
+      dupOptFams == {"dup:" \o sh[q1[1]].name : q1 \in {q1 \in pts : \E q2 \in pts : clash(q1, q2) /\ ser(q1).opt # ser(q2).opt}}
+      dupHardFams == {"dup:" \o sh[q1[1]].name : q1 \in {q1 \in pts : \E q2 \in pts : clash(q1, q2) /\ ser(q1).opt = ser(q2).opt}}
+      helpFams == {"help:" \o sh[i].name : i \in {i \in 1..Len(sh) : \E j \in 1..Len(sh) : sh[i].name = sh[j].name /\ sh[i].eh # sh[j].eh}}
       panic == "EmptyStemPanic" \in dv /\ \E i \in 1..Len(streams) :
                   LET in == InstOf(env, streams[i].inst) IN AddTotal(o, in) /\ EscName(o, in.toks) = <<TOTAL>>
   IN [cache |-> w.cache, fams |-> {fam(n) : n \in {sh[i].name : i \in 1..Len(sh)}} \cup target \cup scopeInfo,
       panic |-> panic,
-      (* families whose metrics the registry is expected to reject / may reject *)
+      (* what the registry is expected to reject / may reject: "<dup|help>:<family>" as projected in obs.gfams *)
       rejectMay |-> IF env.mark THEN {} ELSE dupHardFams,
-      reject |-> helpFams \cup (IF "DupScopeInfo" \in dv /\ dupScope THEN {"otel_scope_info"} ELSE {})
+      reject |-> helpFams \cup (IF "DupScopeInfo" \in dv /\ dupScope THEN {"dup:otel_scope_info"} ELSE {})
                           \cup (IF "DupScopeSeries" \in dv /\ ~env.mark THEN dupOptFams ELSE {})]
 
 (* ---------------------------------------------------------------- matching   *)
